@@ -40,6 +40,9 @@ VAL_TOL = 1e-9          # search: relative to the scale of the function, polynom
 # (measured on the unchanged tree over 900 objects of the thorough generator: 1-D 5e-13, 2-D 3.5e-10, 3-D 3.1e-7 of
 # the scale; steeper functions on finer 3-D grids reach 1e-4)
 SMOOTH_TOL = {1: 1e-10, 2: 1e-7, 3: 1e-4}
+ACCURACY_CLAIMS = ("equals the wrapped function at a sampling node", "a function linear in each coordinate",
+                   "approximates the wrapped function", "function bounds do not change",
+                   "a point inside the caching area has a finite")
 ERR_MULT = 4.0          # search: |cached - f| <= ERR_MULT * h^2 * (sum of max |second derivatives|)
 
 
@@ -53,45 +56,92 @@ def guess_axis(lo, hi, delta):
 
 
 def gen_axis(rng, dim, quick, exact):
+    """-> (lo, hi, delta, resolution class).  Resolution classes: 'frac' (area extent not a multiple of the
+    resolution), 'coarse' (resolution >= extent: the max(.., 2) branch, one cell), 'multiple' (extent an exact
+    multiple of the resolution: int() of an exact integer), 'multiple+ulp' / 'multiple-ulp' (one ulp either side of
+    that), 'int' (integral bounds and resolution)."""
     cells = {1: [1, 1, 2, 3, 5, 8, 13, 20] + ([] if quick else [40, 80]),
              2: [1, 2, 3, 5, 8] + ([] if quick else [13, 20]),
              3: [1, 2, 3, 4] + ([] if quick else [6, 9])}[dim]
     m = rng.choice(cells)
     if exact:
-        lo = dyadic(rng, -8, 8, 3)
+        rcls = rng.choice(["frac", "frac", "frac", "coarse", "multiple", "multiple+ulp", "multiple-ulp", "int"])
+        lo = rng.choice([dyadic(rng, -8, 8, 3), dyadic(rng, -8, 8, 3), 0.0, -0.0])
         width = dyadic(rng, 0.5, 6, 3)
-        hi = lo + width
-        if m == 1 and rng.random() < 0.5:
-            delta = width * rng.choice([1.5, 2.0, 1.0])           # resolution coarser than the area
+        if rng.random() < 0.1:
+            lo = -width                                       # hi == 0 exactly
+        if rcls == "int":
+            lo, width = float(rng.randint(-8, 8)), float(rng.randint(1, 6))
+            delta = float(rng.choice([1, 1, 2, 3]))
+        elif rcls == "coarse" or (m == 1 and rcls == "frac"):
+            rcls = "coarse"
+            delta = width * rng.choice([1.5, 2.0, 1.0, 1.0])      # 1.0: extent == resolution exactly
+        elif rcls.startswith("multiple"):
+            mm = rng.choice([1, 2, 4, 8] + ([16, 32] if dim == 1 else []))
+            delta = width / mm                                # exact: width has 3 fractional bits, mm is a power of two
+            if rcls == "multiple+ulp":
+                delta = float(np.nextafter(delta, np.inf))
+            elif rcls == "multiple-ulp":
+                delta = float(np.nextafter(delta, 0.0))
         else:
             delta = max(round(width / m * rng.uniform(0.55, 1.0) * 256) / 256, 1 / 256)
+        hi = lo + width
     else:
+        rcls = "random"
         lo = rng.uniform(-8, 8)
         hi = lo + rng.uniform(0.5, 6)
         delta = (hi - lo) / m * rng.uniform(0.55, 1.0) if rng.random() < 0.8 else (hi - lo) * rng.uniform(1.0, 2.0)
-    return lo, hi, delta
+    return lo, hi, delta, rcls
 
 
-def gen_coord(rng, lo, hi, delta, nodes, cls):
+def gen_coord(rng, lo, hi, delta, nodes, cls, s=1.0, huge_ok=True, subnormal_ok=True):
+    """one coordinate; lo, hi, delta, nodes are the (scaled) values handed to the constructor, s the coordinate scale"""
     top = len(nodes) - 1
     if cls == "in":
-        return dyadic(rng, lo, hi, 10)
+        return dyadic(rng, lo / s, hi / s, 10) * s
     if cls == "node":
         return float(nodes[rng.choice([0, 1, 1, 2, top - 2, top - 1, top - 1, top] + list(range(top + 1)))])
     if cls == "near":
-        k = rng.randint(0, top)
+        k = rng.choice([1, top - 1, rng.randint(0, top), rng.randint(0, top)])
         return float(np.nextafter(nodes[k], rng.choice([-np.inf, np.inf])))
     if cls == "edge":
-        return rng.choice([lo, hi, hi + EPS / 2, lo - EPS / 2])
+        return rng.choice([lo, hi, hi + EPS / 2, lo - EPS / 2, float(np.nextafter(lo, -np.inf)), float(np.nextafter(lo, np.inf)),
+                           float(np.nextafter(hi, -np.inf)), float(np.nextafter(hi, np.inf))])
     if cls == "gap":
         return rng.choice([lo - delta / 2, hi + delta / 2, lo - EPS * 2, hi + EPS * 2])
     if cls == "far":
-        return rng.choice([lo - delta - dyadic(rng, 0, 4, 6), hi + delta + dyadic(rng, 0, 4, 6), lo - delta, hi + delta])
+        return rng.choice([lo - delta - dyadic(rng, 0, 4, 6) * s, hi + delta + dyadic(rng, 0, 4, 6) * s, lo - delta, hi + delta])
+    if cls == "special":
+        # zero, minus zero, subnormal, tiny, huge: inside or outside depending on the area
+        # (subnormals only in 1-D: their exact rationals have 1074-bit denominators, which the tensor model of the
+        # 2-D/3-D correspondence would have to carry through three levels of cubics)
+        return rng.choice([0.0, -0.0, 2.0 ** -60, -2.0 ** -60]
+                          + ([5e-324, -5e-324, 2.0 ** -1022] if subnormal_ok else [2.0 ** -200, -2.0 ** -200])
+                          + ([2.0 ** 100, -2.0 ** 100] if huge_ok else [64.0, -64.0]))
     raise ValueError(cls)
 
 
-INSIDE_CLASSES = ["in"] * 6 + ["node", "near", "edge"]
-OUTSIDE_CLASSES = ["gap", "far", "gap", "node"]
+INSIDE_CLASSES = ["in"] * 6 + ["node", "near", "edge", "special"]
+OUTSIDE_CLASSES = ["gap", "far", "gap", "node", "special"]
+
+FB_CLASSES = ["none", "none", "none", "wide", "narrow", "degenerate", "reversed", "unit", "zero_one", "tiny", "big", "negzero"]
+
+
+def gen_fb(rng, fbcls, vscale):
+    """function_boundaries by class (scaled with the values of the wrapped function)"""
+    a = rng.choice([2.0, -0.5, 10.0, -3.0, 0.25])
+    fb = {"none": None, "wide": [-1000.0, 1000.0], "narrow": [dyadic(rng, -2, 0, 4), dyadic(rng, 0.25, 2, 4)],
+          "degenerate": [rng.choice([1.5, -2.0, 0.0]), None], "reversed": [8.0, -8.0],
+          "unit": [a, a + 1.0],                    # width exactly one, non-zero minimum
+          "zero_one": [0.0, 1.0], "tiny": [1.0, 1.0 + 2.0 ** -20], "big": [-2.0 ** 20, 2.0 ** 20],
+          "negzero": rng.choice([[-0.0, 1.0], [-1.0, -0.0], [-0.0, 0.0]])}[fbcls]
+    if fb is None:
+        return None
+    if fb[1] is None:
+        fb[1] = fb[0]
+    if fbcls in ("unit", "zero_one", "negzero"):
+        return fb                                     # the point of these classes is the exact width
+    return [v * vscale for v in fb]
 
 
 def gen_poly(rng, dim, degcls):
@@ -108,15 +158,69 @@ def gen_poly(rng, dim, degcls):
     return [[[co() for _ in range(deg + 1)] for _ in range(deg + 1)] for _ in range(deg + 1)]
 
 
-def gen_case(rng, cid, dim, quick, exact, smooth=False):
-    axes = [gen_axis(rng, dim, quick, exact) for _ in range(dim)]
+def scale_poly(c, dim, svars, vscale):
+    """coefficients of vscale * f(x / sx, y / sy, ..): c[a][b].. * vscale / (sx^a sy^b ..)  (powers of two: exact)"""
+    def div(c, d):
+        return [div(v, d) for v in c] if isinstance(c, list) else c / d
+
+    def rec(c, a):
+        if a == dim:
+            return c * vscale
+        return [div(rec(sub, a + 1), svars[a] ** n) for n, sub in enumerate(c)]
+    return rec(c, 0)
+
+
+def representable32(vals):
+    return all(float(np.float32(v)) == float(v) for v in vals)
+
+
+def gen_forms(rng, case):
+    """unusual but valid argument forms, chosen only where they represent the values exactly"""
+    dim = case["dim"]
+    forms = {}
+    cand = ["float", "float", "np64"]
+    if all(float(v).is_integer() for v in case["area"]):
+        cand.append("int")
+    if representable32(case["area"]):
+        cand.append("np32")
+    forms["area"] = rng.choice(cand)
+    cand = ["float", "float", "np64"]
+    if all(float(v).is_integer() for v in case["res"]):
+        cand.append("int")
+    if representable32(case["res"]):
+        cand.append("np32")
+    forms["res"] = rng.choice(cand)
+    if case["fb"] is not None:
+        cand = ["tuple", "list", "nparray"]
+        if all(float(v).is_integer() and str(v) != "-0.0" for v in case["fb"]):
+            cand.append("int")
+        forms["fb"] = rng.choice(cand)
+    forms["nbe"] = rng.choice(["bool", "int"])
+    forms["style"] = rng.choice(["keyword", "positional", "defaults"])
+    forms["fn"] = rng.choice(["plain", "plain", "partial", "lambda", "pyfunc"])
+    forms["call"] = rng.choice(["float", "float", "np64", "np0d"])
+    forms["route"] = rng.choice(["call", "call", "mul1"])
+    return forms
+
+
+def gen_case(rng, cid, dim, quick, exact, smooth=False, far_origin=False):
+    axes0 = [gen_axis(rng, dim, quick, exact) for _ in range(dim)]
+    # scale classes: coordinates by 2^k per axis, values by 2^m (the property is covariant under both; the
+    # absolute EPSILON = 1e-7 of the code is not, so small scales also stress the padding of the grid)
+    scls = rng.choice(["unit", "unit", "coord", "value", "both"]) if exact and not smooth else "unit"
+    svars = [2.0 ** rng.randint(-12, 12) if scls in ("coord", "both") else 1.0 for _ in range(dim)]
+    vscale = 2.0 ** rng.randint(-40, 40) if scls in ("value", "both") else 1.0
+    offs = [0.0] * dim
+    if far_origin:
+        # caching area far from the origin of the coordinates compared with its cell size
+        offs = [rng.choice([-1, 1]) * 2.0 ** rng.randint(6, 20) for _ in range(dim)]
+    axes = [((lo * s) + o, (hi * s) + o, d * s, rc) for (lo, hi, d, rc), s, o in zip(axes0, svars, offs)]
     area = []
-    for lo, hi, _ in axes:
+    for lo, hi, _, _ in axes:
         area += [lo, hi]
-    res = [d for _, _, d in axes]
-    fbcls = rng.choice(["none", "none", "wide", "wide", "narrow", "degenerate", "reversed"])
-    fb = {"none": None, "wide": [-1000.0, 1000.0], "narrow": [dyadic(rng, -2, 0, 4), dyadic(rng, 0.25, 2, 4)],
-          "degenerate": [1.5, 1.5], "reversed": [8.0, -8.0]}[fbcls]
+    res = [d for _, _, d, _ in axes]
+    fbcls = rng.choice(FB_CLASSES)
+    fb = gen_fb(rng, fbcls, vscale)
     nbe = rng.random() < 0.5
     if smooth:
         kind = rng.choice(["trig", "expo"])
@@ -126,11 +230,15 @@ def gen_case(rng, cid, dim, quick, exact, smooth=False):
             fn["phase"] = dyadic(rng, -3, 3, 4)
         else:
             fn["k"] = [v / 4 for v in k]
+        if far_origin:
+            fn["origin"] = offs                       # f(p - origin): the same function, moved with the area
         degcls = kind
     else:
         degcls = rng.choice(["const", "affine", "affine", "quad", "cubic", "cubic"])
-        fn = {"kind": "poly", "coeffs": gen_poly(rng, dim, degcls)}
-    nodes = [guess_axis(lo, hi, d) for lo, hi, d in axes]
+        fn = {"kind": "poly", "coeffs": scale_poly(gen_poly(rng, dim, degcls), dim, svars, vscale)}
+        if far_origin:
+            fn["origin"] = offs
+    nodes = [guess_axis(lo, hi, d) for lo, hi, d, _ in axes]
     npts = {1: rng.randint(8, 24), 2: rng.randint(6, 16), 3: rng.randint(3, 8)}[dim]
     if not quick:
         npts *= 2
@@ -148,11 +256,36 @@ def gen_case(rng, cid, dim, quick, exact, smooth=False):
             cl[rng.randrange(dim)] = rng.choice(OUTSIDE_CLASSES)
         else:
             cl = [rng.choice(INSIDE_CLASSES + OUTSIDE_CLASSES) for _ in range(dim)]
-        pts.append([gen_coord(rng, axes[a][0], axes[a][1], axes[a][2], nodes[a], cl[a]) for a in range(dim)])
+        pts.append([gen_coord(rng, axes[a][0], axes[a][1], axes[a][2], nodes[a], cl[a], svars[a], huge_ok=not smooth,
+                              subnormal_ok=(dim == 1 or smooth)) for a in range(dim)])
         pcls.append("+".join(cl))
     node_picks = [[rng.random() for _ in range(dim)] for _ in range(3)]
-    return {"id": cid, "dim": dim, "area": area, "res": res, "fb": fb, "fbcls": fbcls, "nbe": nbe, "fn": fn,
-            "degcls": degcls, "exact": exact, "pts": pts, "pcls": pcls, "node_picks": node_picks}
+    case = {"id": cid, "dim": dim, "area": area, "res": res, "fb": fb, "fbcls": fbcls, "nbe": nbe, "fn": fn,
+            "degcls": degcls, "exact": exact, "pts": pts, "pcls": pcls, "node_picks": node_picks,
+            "rescls": [rc for _, _, _, rc in axes], "scalecls": scls, "coord_scale": svars, "value_scale": vscale}
+    if far_origin:
+        case["far_origin"] = True
+        case["search_only"] = True
+    case["forms"] = gen_forms(rng, case)
+    if not smooth and not far_origin and degcls == "const" and rng.random() < 0.3:
+        # a plain number as the wrapped function (autowrap turns it into a constant function): calls cannot be recorded
+        case["forms"]["fn"] = "const"
+        v = case["fn"]["coeffs"]
+        while isinstance(v, list):
+            v = v[0]
+        case["fn"]["const_value"] = v
+        case["search_only"] = True
+    return case
+
+
+def gen_badform_case(rng, cid, dim):
+    """argument forms the unchanged code rejects: the rejection is the expected outcome"""
+    c = gen_case(rng, cid, dim, True, True)
+    c["pts"], c["pcls"], c["node_picks"] = [], [], []
+    c["forms"]["bad"] = "list_area" if dim == 1 else rng.choice(["list_area", "list_res"])
+    c["search_only"] = True
+    c["expect_ctor"] = "TypeError"
+    return c
 
 
 def gen_ctor_case(rng, cid, dim):
@@ -282,11 +415,30 @@ def coq_case(case, out):
         "; ".join(ztuple(k) for k in out["cells"]), "; ".join(ztuple(k) for k in out["nodes"]))
 
 
-def coq_axis_cases(case, out):
+def count_ambiguous(case):
+    """number of axes on which int((hi - lo) / delta) is decided by double rounding: the exact quotient is not an
+    integer but closer than 2^-40 (relative) to one.  The model takes the floor of the exact quotient."""
+    n = 0
+    for a in range(case["dim"]):
+        lo, hi, d = case["area"][2 * a], case["area"][2 * a + 1], case["res"][a]
+        if frac(d) <= 0 or frac(hi) <= frac(lo):
+            continue
+        q = (frac(hi) - frac(lo)) / frac(d)
+        r = round(q)
+        if q != r and abs(q - r) < Fraction(1, 2 ** 40) * max(1, r):
+            n += 1
+    return n
+
+
+def coq_axis_cases(case, out, stats=None):
     res = []
     for a in range(case["dim"]):
         lo, hi, d = case["area"][2 * a], case["area"][2 * a + 1], case["res"][a]
         acc = out["ctor"] == "ok"
+        q = (frac(hi) - frac(lo)) / frac(d)
+        r = round(q)
+        if q != r and abs(q - r) < Fraction(1, 2 ** 40) * max(1, r):
+            continue                      # ambiguous node count: excluded from the exact comparison, counted in the evidence
         if acc:
             res.append(("check_axis %s %s %s true %s" % (qlit(lo), qlit(hi), qlit(d), nested_q(out["axes"][a])), a))
     return res
@@ -339,7 +491,7 @@ def fn_bounds(fn, dim, ext):
         return scale, M
     if fn["kind"] == "trig":
         return abs(fn["A"]) + abs(fn["C"]), abs(fn["A"]) * sum(abs(k) for k in fn["k"]) ** 2
-    e = math.exp(sum(abs(k) * x for k, x in zip(fn["k"], ext)))
+    e = math.exp(min(60.0, sum(abs(k) * x for k, x in zip(fn["k"], ext))))
     return abs(fn["A"]) * e + abs(fn["C"]), abs(fn["A"]) * e * sum(abs(k) for k in fn["k"]) ** 2
 
 
@@ -369,10 +521,12 @@ def judge_case(case, out, stats):
         d = stats.setdefault(name, {})
         d[tag] = max(d.get(tag, 0.0), v)
     expect_ok = ctor_expected(case)
-    if (out.get("ctor") == "ok") != expect_ok:
-        fail("constructor accepts exactly min < max and resolution > 1e-7", ctor=out.get("ctor"))
+    expect = case.get("expect_ctor") or ("ok" if expect_ok else "ValueError")
+    if out.get("ctor") != expect:
+        fail("constructor accepts exactly min < max and resolution > 1e-7 (ValueError otherwise; TypeError for a list "
+             "in place of the area / resolution tuple)", ctor=out.get("ctor"), expected=expect)
         return fails
-    if not expect_ok:
+    if expect != "ok":
         return fails
     axes = out["axes"]
     if out.get("ctor_calls"):
@@ -384,13 +538,14 @@ def judge_case(case, out, stats):
             # objects are only checked for constructor acceptance and node positions
             stats["degenerate_grid"] += 1
             return fails
-    ext = [max(abs(ax[0]), abs(ax[-1])) for ax in axes]
+    org = case["fn"].get("origin") or [0.0] * dim
+    ext = [max(abs(ax[0] - o), abs(ax[-1] - o)) for ax, o in zip(axes, org)]
     hmax = max(max(ax[i + 1] - ax[i] for i in range(len(ax) - 1)) for ax in axes)
     fbmag = 0.0 if case["fb"] is None else abs(case["fb"][0]) + abs(case["fb"][1])
     for si, (p, st) in enumerate(zip(case["pts"], out["steps"])):
-        pext = [max(e, abs(v)) for e, v in zip(ext, p)]
+        pext = [max(e, abs(v - o)) for e, v, o in zip(ext, p, org)]
         scale, M = fn_bounds(case["fn"], dim, pext)
-        scale += 1.0 + fbmag
+        scale += fbmag + 1e-300
         info = {"step": si, "point": p}
         VT = vtol
         if st["kind"] == 3:
@@ -400,6 +555,11 @@ def judge_case(case, out, stats):
         if st["kind"] != st["fresh"][0] or not same_bits(st["value"], st["fresh"][1]):
             fail("value does not depend on the points evaluated before (used vs fresh object, bit for bit)",
                  used=[st["kind"], st["value"]], fresh=st["fresh"], **info)
+        # (1b) the same point on a third object driven through the reversed history: same bits
+        rv = out.get("rev")
+        if rv is not None and (rv[si][0] != st["kind"] or not same_bits(rv[si][1], st["value"])):
+            fail("value does not depend on the order of evaluation (same history reversed on another object, bit for bit)",
+                 forward=[st["kind"], st["value"]], reversed=rv[si], **info)
         in_user_area = all(case["area"][2 * a] <= p[a] <= case["area"][2 * a + 1] for a in range(dim))
         in_nodes = all(axes[a][1] <= p[a] <= axes[a][-2] for a in range(dim))
         fval = st["f"]
@@ -429,7 +589,9 @@ def judge_case(case, out, stats):
             stats["outside"] += 1
             # (5) outside: raises, or evaluates the wrapped function directly
             if case["nbe"]:
-                if st["kind"] != 0 or not same_bits(st["value"], fval) or [list(c) for c in st["calls"]] != [list(map(float, p))]:
+                recorded = case.get("forms", {}).get("fn") != "const"
+                if st["kind"] != 0 or not same_bits(st["value"], fval) or \
+                        (recorded and [list(c) for c in st["calls"]] != [list(map(float, p))]):
                     fail("outside the area with no_boundary_error the wrapped function is evaluated directly at the point",
                          got=[st["kind"], st["value"]], f=fval, calls=st["calls"][:3], **info)
             elif st["kind"] != 2:
@@ -450,7 +612,7 @@ def judge_case(case, out, stats):
                     fail("function bounds do not change the result", with_bounds=st["value"], without=nv, **info)
     # (2) sampling nodes
     scale, _ = fn_bounds(case["fn"], dim, ext)
-    scale += 1.0 + fbmag
+    scale += fbmag + 1e-300
     for nvl in out.get("nodevals", []):
         stats["node_points"] += 1
         if nvl["kind"] != 0 or not math.isfinite(nvl["value"]) or abs(nvl["value"] - nvl["f"]) > vtol * scale:
@@ -548,6 +710,11 @@ def run(ctx):
     for i in range(n_ctor):
         cases.append(gen_ctor_case(rng, len(cases), 1 + i % 3))
     n_coq_cases = len(cases)
+    for i in range(6 if quick else 60):
+        cases.append(gen_badform_case(rng, len(cases), 1 + i % 3))
+    # caching areas far from the origin of the coordinates (search only; see known_findings.txt key c14-farorigin)
+    for i in range(9 if quick else 150):
+        cases.append(gen_case(rng, len(cases), 1 + i % 3, quick, exact=True, smooth=bool(i % 2), far_origin=True))
     for dim in (1, 2, 3):
         for i in range(n_smooth[dim]):
             cases.append(gen_case(rng, len(cases), dim, quick, exact=bool(i % 2), smooth=True))
@@ -555,6 +722,7 @@ def run(ctx):
     n_generated = len(cases)
     for c in cases[n_coq_cases:]:
         c["search_only"] = True
+    n_ambiguous_axes = sum(count_ambiguous(c) for c in cases if not c.get("search_only"))
     # run the implementation; a crash / hang of the child process is pinned to the case that was running
     # (progress file), reported, and the remaining cases are run in a new child process
     kept, outs, remaining = [], [], cases
@@ -643,23 +811,35 @@ def run(ctx):
     all_fails = []
     for c, o in zip(cases, outs):
         all_fails += judge_case(c, o, stats)
+    strict_fails = [f for f in all_fails if not (by_id[f["case_id"]].get("far_origin") and "c14-farorigin" in ctx.known
+                                                 and f["claim"].startswith(ACCURACY_CLAIMS))]
     ctx.obligation("executable property on the implementation (%d objects, %d evaluations)"
-                   % (len(outs), sum(len(c["pts"]) for c in cases)), "search", not all_fails, json.dumps(all_fails[:3], default=str)[:1500])
+                   % (len(outs), sum(len(c["pts"]) for c in cases)), "search", not strict_fails,
+                   json.dumps(strict_fails[:3], default=str)[:1500])
     by_claim = {}
     diff_ids = {cid for cid, _ in diff}
     for f in all_fails:
         # prefer a failure in a case that also disagrees with the model, then the shortest history
-        key = f["claim"]
         c = by_id[f["case_id"]]
+        far = bool(c.get("far_origin")) and f["claim"].startswith(ACCURACY_CLAIMS)
+        key = ("far" if far else "") + f["claim"]
         rank = (0 if f["case_id"] in diff_ids else 1, len(c["pts"]))
         if key not in by_claim or rank < by_claim[key][0]:
-            by_claim[key] = (rank, f)
-    for claim, (_, f) in list(by_claim.items())[:5]:
+            by_claim[key] = (rank, f, far)
+    n_far_fail = sum(1 for f in all_fails if by_id[f["case_id"]].get("far_origin") and f["claim"].startswith(ACCURACY_CLAIMS))
+    for key, (_, f, far) in list(by_claim.items())[:8]:
         c = by_id[f["case_id"]]
+        claim = f["claim"]
+        if far:
+            # accuracy claims on areas far from the origin: one stable key (genuine numerical finding on the unchanged tree)
+            ctx.violation("c14-farorigin", claim + " -- fails on the implementation (Caching%dD) for a caching area far from the "
+                          "origin of the coordinates compared with its cell size (%d such failures in this run)" % (c["dim"], n_far_fail),
+                          {"case": c, "failure": f}, found=True)
+            continue
         small = shrink(c, claim, ctx) if c["pts"] else c
         ctx.violation("c14:" + claim[:48], claim + " -- fails on the implementation (Caching%dD)" % c["dim"],
                       {"case": small, "failure": f, "original_history_length": len(c["pts"])}, found=True)
-    if diff and not all_fails:
+    if diff and not strict_fails:
         for cid, what in diff[:3]:
             c = by_id[cid]
             ctx.violation("c14-diff:%dd:%s" % (c["dim"], what.rstrip("012")),
@@ -668,7 +848,8 @@ def run(ctx):
                           % (what, c["dim"]), {"case": c, "what": what, "correspondence": "coq/Gen/C14/cases_*.v"}, found=False)
 
     # ---- coverage ----------------------------------------------------------------------------------
-    dist = {"by_dim": {}, "fb_class": {}, "degree_class": {}, "point_class": {}, "no_boundary_error": 0,
+    dist = {"by_dim": {}, "fb_class": {}, "degree_class": {}, "point_class": {}, "resolution_class": {}, "scale_class": {},
+            "argument_forms": {}, "no_boundary_error": 0,
             "nodes_per_axis": {}, "history_length": {"min": None, "max": None}}
     n_eval = 0
     new_cell_steps = 0
@@ -682,6 +863,11 @@ def run(ctx):
         dist["fb_class"][c["fbcls"]] = dist["fb_class"].get(c["fbcls"], 0) + 1
         dist["degree_class"][c["degcls"]] = dist["degree_class"].get(c["degcls"], 0) + 1
         dist["no_boundary_error"] += int(c["nbe"])
+        for rc in c.get("rescls", []):
+            dist["resolution_class"][rc] = dist["resolution_class"].get(rc, 0) + 1
+        dist["scale_class"][c.get("scalecls", "unit")] = dist["scale_class"].get(c.get("scalecls", "unit"), 0) + 1
+        for k, v in c.get("forms", {}).items():
+            dist["argument_forms"]["%s=%s" % (k, v)] = dist["argument_forms"].get("%s=%s" % (k, v), 0) + 1
         for cl in c["pcls"]:
             for part in cl.split("+"):
                 dist["point_class"][part] = dist["point_class"].get(part, 0) + 1
@@ -702,7 +888,10 @@ def run(ctx):
         dist["history_length"]["max"] = L if dist["history_length"]["max"] is None else max(L, dist["history_length"]["max"])
     dist.update({"evaluations_raising": err_steps, "evaluations_filling_a_cell": new_cell_steps,
                  "evaluations_on_cached_cell_or_direct": cached_cell_steps, "constructor_cases": n_ctor,
-                 "corpus_cases": n_corpus, "smooth_function_cases(search only)": sum(1 for c in cases if c.get("search_only")),
+                 "corpus_cases": n_corpus, "rejected_argument_form_cases": sum(1 for c in cases if c.get("expect_ctor")),
+                 "far_origin_cases(search only, known finding)": sum(1 for c in cases if c.get("far_origin")),
+                 "far_origin_accuracy_failures": n_far_fail,
+                 "axes_with_ambiguous_node_count(excluded from the exact grid comparison)": n_ambiguous_axes, "smooth_function_cases(search only)": sum(1 for c in cases if c.get("search_only")),
                  "search_point_counts": {k: v for k, v in stats.items() if not k.startswith("max_")}})
     # non-trivial: a history in which a cell is evaluated after a neighbouring cell (sharing nodes) was filled, or a
     # cell is revisited: exactly the situations in which lazily filled state is reused
@@ -728,7 +917,7 @@ def run(ctx):
                 "(object, history).",
         "distribution": dist,
         "cases": len(cases), "coq_checks": len(texts), "correspondence_disagreements": len(diff),
-        "tolerance": {"value (Coq)": "2^-34 * (bound of |f| on the grid box and at the point + |function bounds| + 1)",
+        "tolerance": {"value (Coq)": "2^-34 * (bound of |f| on the grid box and at the point + |function bounds|)",
                       "node positions (Coq)": "2^-46 * (|lo| + |hi| + |delta| + 1)", "calls, exception kind, cached cells, sampled nodes": "exact",
                       "used vs fresh object (search)": "bit for bit",
                       "search values": "%g * scale (polynomial wrapped functions); sin/exp wrapped functions: %s * scale by dimension "
